@@ -23,6 +23,10 @@ type c13Case struct {
 	Conns    int       `json:"conns"`
 	Steps    []c08Step `json:"steps"`
 	TLS      bool      `json:"tls,omitempty"` // the connections are TLS connections (served with a TLS state)
+	// Tracer: a tracer is installed on the server
+	Tracer bool `json:"tracer,omitempty"`
+	// SharedAddr: all connections report the same remote address (as net.Pipe connections do)
+	SharedAddr bool `json:"shared_addr,omitempty"`
 }
 
 // c13Strict: data commands of which an authorized connection must make at least one handler call.
@@ -61,14 +65,28 @@ func evalC13(c c13Case) *Failure {
 	if c.TLS {
 		served = tlsServed{srv}
 	}
-	m, err := connsim.NewMulti(served, c.Conns, serveTimeout())
-	if err != nil {
-		return failf("harness|multi", "opening connections: %v", err)
+	if c.Tracer {
+		srv.SetTracer(doubles.NewTracer(&connsim.Log{}))
+	}
+	m := &connsim.Multi{Srv: served, Timeout: serveTimeout(), Log: &connsim.Log{}}
+	if c.SharedAddr {
+		m.SharedAddr = "pipe"
 	}
 	defer m.CloseAll()
+	for i := 0; i < c.Conns; i++ {
+		if err := m.Open(); err != nil {
+			return failf("harness|multi", "opening connections: %v", err)
+		}
+	}
 	what := c.describe()
 	if c.TLS {
 		what = "TLS connections; " + what
+	}
+	if c.Tracer {
+		what = "tracer installed; " + what
+	}
+	if c.SharedAddr {
+		what = "all connections report the same remote address; " + what
 	}
 	type state struct {
 		db    int
@@ -243,7 +261,7 @@ func init() {
 }
 
 func TestC13(t *testing.T) {
-	h := newHarness(t, "C13", "2..8 scripted connections of one server; per connection a script of SELECT n (also unusual indexes) / AUTH (exact or clearly wrong password) / CONFIG SET requirepass|databases by another connection / data commands (the fixed seven, any well-formed command of the grammar, and every command the server has registered beyond the grammar, with generic arguments), on plain or TLS connections (GET, SET, HGET, LPUSH, INCR) / REMEMBER t (an application executor storing a token in the connection's sync.Map); "+
+	h := newHarness(t, "C13", "2..8 scripted connections of one server; per connection a script of SELECT n (also unusual indexes) / AUTH (exact or clearly wrong password) / CONFIG SET requirepass|databases by another connection / data commands (the fixed seven, any well-formed command of the grammar, and every command the server has registered beyond the grammar, with generic arguments), on plain or TLS connections, with or without a tracer installed, with distinct or identical remote addresses, with occasional runs of 15..40 failed AUTHs on one connection (GET, SET, HGET, LPUSH, INCR) / REMEMBER t (an application executor storing a token in the connection's sync.Map); "+
 		"password required in half of the cases. SYSTEMATIC: all 20 request-granularity interleavings of two connections with 3 requests each, for all script pairs over a 4-symbol alphabet (thorough; quick: a third of them); RANDOM: up to 8 connections, up to 6 requests each, random interleavings. "+
 		"Oracle: every handler call must show conn.Database(), conn.IsAuthrized() and the stored token of THAT connection's own model. Non-trivial: at the time of some handler call two connections hold different database ids, authorization states or tokens. Distinct = distinct (password, step sequence).")
 	defer h.Finish()
@@ -372,7 +390,8 @@ sys:
 	}
 	h.Col.Note("registered_commands_without_grammar", len(extraNames))
 	h.Rapid("random", h.N(5000, 200000), func(rt *rapid.T) {
-		c := c13Case{Conns: rapid.IntRange(2, 8).Draw(rt, "conns"), TLS: rapid.IntRange(0, 3).Draw(rt, "tls") == 0}
+		c := c13Case{Conns: rapid.IntRange(2, 8).Draw(rt, "conns"), TLS: rapid.IntRange(0, 3).Draw(rt, "tls") == 0, Tracer: rapid.IntRange(0, 3).Draw(rt, "tracer") == 0,
+			SharedAddr: rapid.Bool().Draw(rt, "sharedaddr")}
 		if rapid.Bool().Draw(rt, "pw") {
 			c.Password = "sesame"
 		}
@@ -419,6 +438,12 @@ sys:
 				r = []*resp.Bin{bp("AUTH"), bp("sesame")}
 			case 3:
 				r = []*resp.Bin{bp("AUTH"), bp("definitely-wrong")}
+				if rapid.IntRange(0, 5).Draw(rt, "run") == 0 {
+					// a long run of failures on this connection: what it does to itself must not reach the others
+					for j, k := 0, rapid.IntRange(15, 40).Draw(rt, "runlen"); j < k; j++ {
+						c.Steps = append(c.Steps, c08Step{Conn: who, Req: r})
+					}
+				}
 			case 4, 5:
 				r = []*resp.Bin{bp("REMEMBER"), bp(fmt.Sprintf("t%d-%d", who, i))}
 			default:
@@ -429,7 +454,7 @@ sys:
 			}
 			c.Steps = append(c.Steps, c08Step{Conn: who, Req: r})
 		}
-		h.Col.Case(nontrivial(c), []byte(fmt.Sprint(c.TLS, c.describe())), fmt.Sprintf("random-%dconn", c.Conns))
+		h.Col.Case(nontrivial(c), []byte(fmt.Sprint(c.TLS, c.Tracer, c.SharedAddr, c.describe())), fmt.Sprintf("random-%dconn", c.Conns))
 		h.Fail(rt, "c13.steps", c, evalC13(c))
 	})
 }
